@@ -1,0 +1,49 @@
+//go:build verif
+
+package verifhook
+
+import (
+	"github.com/antlr4-go/antlr/v4"
+	"github.com/verily-src/fhirpath-go/fhirpath/internal/grammar"
+	"github.com/verily-src/fhirpath-go/fhirpath/internal/parser"
+)
+
+// Token is one default-channel token of the generated lexer: its text and the
+// byte offsets (start inclusive, stop exclusive) of the text in the source.
+type Token struct {
+	Text        string
+	Start, Stop int
+}
+
+// Tokens runs the generated FHIRPath lexer over src exactly as compile.Tree sets it
+// up (same input stream, same error listener) and returns the default-channel
+// tokens. ok is false when the lexer reported an error.
+func Tokens(src string) (toks []Token, ok bool) {
+	inputStream := antlr.NewInputStream(src)
+	errorListener := &parser.FHIRPathErrorListener{}
+	lexer := grammar.NewfhirpathLexer(inputStream)
+	lexer.RemoveErrorListeners()
+	lexer.AddErrorListener(errorListener)
+	// rune offsets -> byte offsets
+	offs := make([]int, 0, len(src)+1)
+	for i := range src {
+		offs = append(offs, i)
+	}
+	offs = append(offs, len(src))
+	for {
+		t := lexer.NextToken()
+		if t.GetTokenType() == antlr.TokenEOF {
+			break
+		}
+		if t.GetChannel() != antlr.TokenDefaultChannel {
+			continue
+		}
+		a, b := t.GetStart(), t.GetStop()+1
+		if a < 0 || b >= len(offs) || a > b {
+			toks = append(toks, Token{Text: t.GetText(), Start: -1, Stop: -1})
+			continue
+		}
+		toks = append(toks, Token{Text: t.GetText(), Start: offs[a], Stop: offs[b]})
+	}
+	return toks, errorListener.Error() == nil
+}
